@@ -696,7 +696,7 @@ func (h *harness) workFamily(f family) {
 		}
 		switch {
 		case f.valid:
-			run.Oblige("oracle: valid documents of growing breadth and constant nesting depth (sibling inline fragments / spreads / sub-selections, widths straddling 2^k and 10^k, every operation type) are accepted by ParseAndValidate at every width, within the budget", "oracle", 1, v.mode == "", v.what)
+			run.Oblige("oracle: valid documents of growing breadth and constant nesting depth (sibling inline fragments / spreads / sub-selections, widths straddling 2^k and 10^k, every operation type), and overlapping fields with identical argument literals nested 1..200 deep, are accepted by ParseAndValidate at every size, within the budget", "oracle", 1, v.mode == "", v.what)
 		case f.cyclic:
 			run.Oblige("oracle: a fragment cycle (at the root, behind inline fragments, behind a chain, below a field, unreached; under query, mutation, subscription and shorthand operations) is reported as a fragment cycle by an ordinary error — no crash, no hang", "oracle", 1, v.mode == "", v.what)
 		}
